@@ -35,7 +35,7 @@ func init() {
 		c.Run.Floor("K-RECORD/literal", 3)
 		c.Run.Floor("K-RECORD/accessor", 2)
 		// "since M was last reset": a reset that names M (ResetMCalls, ResetCalls) leaves M's record empty
-		c.RunSkeletons(SkelOpts{Rules: []string{"K-RECORD", "K-FLOW/acyclic", "K-LOCK/held-at-callback", "K-LOCK/defer", "K-LOCK/held-at-exit", "K-RESET"}})
+		c.RunSkeletons(SkelOpts{Rules: []string{"K-RECORD", "K-FLOW/acyclic", "K-LOCK/held-at-callback", "K-LOCK/defer", "K-LOCK/held-at-exit", "K-RESET", "K-LOCK/access-locked"}})
 	})
 	register("C05", "other", func(c *Ctx) {
 		skeletonExplain(c, "C05 (race freedom of the record lists): Eraser-style lockset discipline on the skeletons — every read or write of a record slice happens with a lock of the receiver certainly held (must-lockset over go/cfg), writes under a write lock, one common lock protects all accesses of a slice across all functions of the mock, distinct methods use distinct slices and locks, lock fields are sync.RWMutex/Mutex values of import path \"sync\" (resolved by go/types, so a user package named sync cannot stand in), receivers are pointers, no reference to the storage escapes. The atomic-list behaviour (count, no tearing, per-goroutine order, prefix-monotone snapshots) follows from these facts plus C04's single append inside one write section and the Go memory model; that derivation is an argument, not machine-checked.")
